@@ -843,6 +843,12 @@ func (u *udfService) Create(name, taskID, nodeID string, d udf.Diagnostic, abort
 	return kapacitor.NewUDFSocket(taskID, nodeID, &memSocket{r: rr, batch: u.batch}, d, keepaliveTimeout, abort), nil
 }
 
+// NewEchoUDFService is a TaskMaster.UDFService whose only function "echo" is an in-process echo
+// agent behind in-memory, fragmenting pipes (used by C07 as an output that must be drained).
+func NewEchoUDFService(r *core.Rng, batch bool) kapacitor.UDFService {
+	return &udfService{r: r, batch: batch}
+}
+
 func runNode(x *core.Ctx, r *core.Rng, n int) {
 	batch := r.Chance(0.4)
 	sub := fmt.Sprintf("udf node session %d of seed %d batch=%v", n, x.Case.Seed, batch)
